@@ -179,6 +179,17 @@ func Build(s Spec, mons ...vnet.Monitor) *Built {
 		}
 		cfg.TxPerBlock = 1 + r.Intn(4)
 		initTx = []int{0, 0, 1, 3}[r.Intn(4)]
+		if r.Intn(4) == 0 && cfg.N >= 2 {
+			// the validator list rotates between heights (same size, other members): a node may become
+			// primary of a height whose predecessor it only watched
+			cfg.Watchers = 1 + r.Intn(2)
+			cfg.K.ObserverSync = true // observers get finished blocks from the block relay, like any full node (DESIGN 5.17)
+			total, size, vseed := cfg.N+cfg.Watchers, cfg.N, s.Seed
+			cfg.ValSchedule = func(idx uint32) []int {
+				rr := rand.New(rand.NewSource(vseed ^ int64(idx)*2654435761))
+				return rr.Perm(total)[:size]
+			}
+		}
 	case "async-benign":
 		cfg = baseConfig(s, r, Opt{Dyn: 1})
 		cfg.K = vnet.Knobs{PDrop: 0.02, PDup: 0.08, PEarlyTimer: 0.01, PStaleTimer: 0.01, PAdvance: 0.02,
